@@ -2,7 +2,7 @@
 yielded; positioning tables of both directions; the last-prefix helper and advance_key as arm
 tables."""
 from .common import *
-from .c03 import return_alts, is_err_path, r5_wrappers
+from .c03 import return_alts, is_err_path, r5_wrappers, r3_reset
 from .c01 import r7_mirror
 from .c04 import cursor_calls
 
@@ -23,6 +23,7 @@ def run(ck):
         ck.guard("C05-R4", r4_advance, ck, F)
         ck.guard("C05-R5", r5_wrappers, ck, F, "C05-R5")
         ck.guard("C05-R5", r7_mirror, ck, F, "C05-R5")
+        ck.guard("C05-R5", r3_reset, ck, F, "C05-R5")
     ck.trusted += ["rustc MIR construction", "core slice::starts_with / u8::checked_add"]
 
 
